@@ -864,6 +864,7 @@ package anytype
 // ---------------------------------------------------------------------------
 
 //@ iface field.serialize [C02 C16 C01]
+//@   decreases rank(self)
 //@   requires isField(self) && okVal(self)
 //@   assigns  nothing
 //@   panics_iff false
@@ -968,6 +969,7 @@ package anytype
 // ---------------------------------------------------------------------------
 
 //@ iface field.isEqual pure [C07]
+//@   decreases rank(self)
 //@   requires isField(self) && okVal(self)
 //@   requires other-ok: another == nil || (isField(another) && okVal(another))
 //@   panics_iff false
@@ -1145,6 +1147,7 @@ package anytype
 //@ template parse-machine(FNAME, REFOF, CLOSECH, ISKIND, CVAR)
 //@ func FNAME [C04 C20]
 //@   requires line-room: deref(line) >= 1 && deref(line) + len(json) < MaxInt
+//@   decreases len(json)
 //@   let L0 := deref(line)
 //@   let n := len(json)
 //@   assigns  cell(line)
@@ -1200,21 +1203,25 @@ package anytype
 // ---------------------------------------------------------------------------
 
 //@ func (*object).TypeOfTF pure [C10]
+//@   decreases len(tf)
 //@   requires invO(ego)
 //@   panics_iff false
 //@   ensures  kind: result == tfKindO(ego, tf)
 
 //@ func (*list).TypeOfTF pure [C10]
+//@   decreases len(tf)
 //@   requires invL(ego)
 //@   panics_iff false
 //@   ensures  kind: result == tfKindL(ego, tf)
 
 //@ func (*object).GetTF pure [C10 C19]
+//@   decreases len(tf)
 //@   requires invO(ego)
 //@   panics_iff !tfDefO(ego, tf)
 //@   ensures  value: result == tfValO(ego, tf)
 
 //@ func (*list).GetTF pure [C10 C19]
+//@   decreases len(tf)
 //@   requires invL(ego)
 //@   panics_iff !tfDefL(ego, tf)
 //@   ensures  value: result == tfValL(ego, tf)
@@ -1412,6 +1419,7 @@ package anytype
 // ---------------------------------------------------------------------------
 
 //@ func (*object).SetTF [C11 C19]
+//@   decreases len(tf)
 //@   requires invO(ego) && okArg(value)
 //@   assigns  tree
 //@   panics_iff !tfWFO(tf) || !supp(value)
@@ -1419,6 +1427,7 @@ package anytype
 //@   ensures  alive: invO(ego)
 
 //@ func (*list).SetTF [C11 C19]
+//@   decreases len(tf)
 //@   requires invL(ego) && okArg(value)
 //@   assigns  tree
 //@   panics_iff !tfWFL(tf) || !supp(value)
@@ -1431,12 +1440,14 @@ package anytype
 //@     decreases index - count - i
 
 //@ func (*object).UnsetTF [C11 C19]
+//@   decreases len(tf)
 //@   requires invO(ego)
 //@   assigns  tree
 //@   panics_if true
 //@   ensures  fluent: result == ego.ptr && ego.ptr == old(ego.ptr) [C19 C11]
 
 //@ func (*list).UnsetTF [C11 C19]
+//@   decreases len(tf)
 //@   requires invL(ego)
 //@   assigns  tree
 //@   panics_if true
